@@ -521,6 +521,13 @@ func verify(c editCase, s *state, ctx string) *vlib.Failure {
 	if cs, ok := al.(interface{ Consensus(bool) *linear.QSeq }); ok && (c.Spec.Kind == "aseq" || c.Spec.Kind == "multi" || c.Spec.Kind == "multiq") {
 		cons = cs.Consensus(false)
 	}
+	var (
+		heldQL              []alphabet.QLetter
+		heldL               []alphabet.Letter
+		heldQLWas, heldLWas string
+		heldPos             int
+		heldFill            bool
+	)
 	for pos := wantStart; pos < wantEnd; pos++ {
 		for _, fill := range []bool{true, false} {
 			var wantL []byte
@@ -558,6 +565,14 @@ func verify(c editCase, s *state, ctx string) *vlib.Failure {
 			}
 			col := al.Column(pos, fill)
 			cql := al.ColumnQL(pos, fill)
+			// a column handed out earlier stays what it was when the next one is asked for
+			if heldQL != nil && qlString(heldQL) != heldQLWas {
+				return vlib.Failf("column-view-held", "%s: the ColumnQL result of position %d (fill=%v) read %q when it was returned and reads %q after ColumnQL(%d, %v)", ctx, heldPos, heldFill, heldQLWas, qlString(heldQL), pos, fill)
+			}
+			if heldL != nil && alphabet.Letters(heldL).String() != heldLWas {
+				return vlib.Failf("column-view-held", "%s: the Column result of position %d (fill=%v) read %q when it was returned and reads %q after Column(%d, %v)", ctx, heldPos, heldFill, heldLWas, alphabet.Letters(heldL).String(), pos, fill)
+			}
+			heldQL, heldQLWas, heldL, heldLWas, heldPos, heldFill = cql, qlString(cql), col, alphabet.Letters(col).String(), pos, fill
 			if len(col) != len(wantL) || len(cql) != len(wantL) {
 				return vlib.Failf("column-view-length", "%s: position %d fill=%v: Column has %d entries, ColumnQL %d, expected %d (%q)", ctx, pos, fill, len(col), len(cql), len(wantL), wantL)
 			}
